@@ -731,7 +731,13 @@ def run_real_recv(inp):
                 if avail >= len(stream):
                     break
                 _time.sleep(0.002)
-            _time.sleep(0.01)        # let the FIN be processed as well
+            import select as _select
+            po = _select.poll()                 # ... and until the peer's FIN has been received (POLLRDHUP)
+            po.register(sock.fileno(), _select.POLLRDHUP)
+            deadline = _time.monotonic() + 5.0
+            while _time.monotonic() < deadline:
+                if any(ev & _select.POLLRDHUP for _fd, ev in po.poll(50)):
+                    break
     try:
         timeout = 10.0 if T is None else 0.0
         if mode == 1:
